@@ -210,6 +210,20 @@ def d3_refuse_non_arrays(ctx):
                        f'{f.qualname}: every mutating step follows the handle construction',
                        detail=f'effects that can run before the array is recognised: {bad}')
     ctx.floor('C16 D3 delete/truncate-by-path functions', n, 4)
+    # D3b: deletion through a handle *object* re-validates what is on disk first: every unlink/rmdir of a public delete
+    # function is preceded by a call that opens the array's data (the opener refuses a directory that no longer holds the
+    # array) — a stale handle whose path was re-used must not remove the new occupant's files
+    for spec in ('array.delete_array', 'raggedarray.delete_raggedarray'):
+        f = ctx.repo.func(spec)
+        sites = [e.node for e in ctx.E.primitives(f) if e.kind in ('DELETE', 'RMDIR')]
+        validators = [nd for nd, cal in ctx.E.callees(f) if isinstance(nd, ast.Call) and
+                      any(e.kind == 'MAP' for e in ctx.E.may(cal)) and not any(e.kind in ('DELETE', 'RMDIR') for e in ctx.E.may(cal))]
+        late = [s_ for s_ in sites if not (validators and must_precede(f, s_, validators))]
+        ctx.decide(not late, 'R-DOM', 'D3', f, late[0] if late else (sites[0] if sites else None), 'revalidate-before-delete',
+                   f'{f.qualname}: the array on disk is opened (validated) before the first file is removed',
+                   detail='files are unlinked before anything checks that the directory still holds this array: with a '
+                          'stale handle whose path was re-used, README.txt / metadata.json / arraydescription.json of '
+                          'the new occupant are removed before the call fails')
     # delete_raggedarray specifics
     f = ctx.repo.func('raggedarray.delete_raggedarray')
     for e in ctx.E.primitives(f):
